@@ -154,6 +154,36 @@ def run(chk, F, tier):
                   "`---@class A<T>: Al<T>`, `---@alias Al<T> B<T>`, `---@class B<T>: A<T>` the lookup of a missing member recurses until the stack overflows"
                   % k.split("::")[-1], b.loc(), sample={"rule": "R12e", "fn": k.split("::")[-1], "verdict": "InferGuard::check dominates the walk"})
     chk.floor("super walks that re-enter member lookup", nwalk, 1)
+    # R12f: a recursion guard is created at query entry points only
+    chk.rule("R12f", "a method of a context type that carries the InferGuard of the running walk never calls InferGuard::new(): a child context built "
+                     "with a fresh guard forgets the types already on the path, and a cycle that passes through that point is never detected")
+    nnew = 0
+    for k, b in F.bodies.items():
+        if b.crate != "emmylua_code_analysis" or "::test" in k or b.kind not in ("fn", "closure"):
+            continue
+        sites = [c for _, c in b.calls() if name(c).endswith("InferGuard::new")]
+        if not sites:
+            continue
+        nnew += len(sites)
+        holds = [i for i in range(1, b.argc + 1) if "InferGuard" in b.local_ty_str(i)]
+        recv_fields = []
+        if b.argc >= 1 and b.kind == "fn":
+            t = b.local_ty(1)
+            adt = F.adts.get(t[3]) if t[2] in ("ref", "adt") or t[3] else None
+            if adt is None and t[4]:
+                for ai in t[4]:
+                    tt = b.ty(ai)
+                    if tt[3] in F.adts:
+                        adt = F.adts[tt[3]]
+            if adt is not None and b.local_name(1) == "self":
+                recv_fields = [f["name"] for v in adt["variants"] for f in v["fields"] if "InferGuard" in adt["_types"][f["ty"]][0]]
+        # a fresh guard handed to a separate second pass (infer_member's operator fallback after FieldNotFound) is a temporary; what must
+        # not happen is that a context object which *carries* the guard of the running walk is rebuilt with an empty one
+        chk.check(not recv_fields, "R12f", "fresh-guard@%s" % k.replace(CA, ""),
+                  "%s creates a fresh InferGuard although it already holds one (%s): the set of types visited so far is dropped at this point, so a "
+                  "cyclic class/alias chain that runs through it recurses until the stack overflows" % (k.split("::")[-1], (["parameter"] if holds else []) + recv_fields),
+                  b.loc(sites[0]["l"]), sample={"rule": "R12f", "fn": k.replace(CA, ""), "verdict": "entry point: no guard in scope"})
+    chk.floor("InferGuard::new call sites", nnew, 10)
     from rules import c12d
     c12d.run_r12d(chk, F)
     from rules import c12c
